@@ -36,7 +36,7 @@ fn c14_decode_table_full() {
 
 //# kind=complete tier=quick props=C14 fns=Base64Decoder::decode_u8x4,Base64Decoder::decode_size | decode_u8x4(enc3(a,b,c)) == [a,b,c] for all 2^24 groups; padded quanta `xx==` / `xxx=` give size 1 / 2 and the right leading bytes; decode_size is 3 without padding
 #[kani::proof]
-#[kani::unwind(6)]
+#[kani::unwind(8)]
 fn c14_quantum_roundtrip() {
     let a: u8 = kani::any();
     let b: u8 = kani::any();
@@ -57,7 +57,7 @@ fn c14_quantum_roundtrip() {
 
 //# kind=complete tier=quick props=C14 fns=Base64Decoder::decode_u8x4,Base64Decoder::decode_size | decode_u8x4 / decode_size never panic and decode_size is in 1..=3 for arbitrary bytes
 #[kani::proof]
-#[kani::unwind(2)]
+#[kani::unwind(8)]
 fn c14_quantum_total() {
     let q: [u8; 4] = kani::any();
     let _ = Dec::decode_u8x4(q);
